@@ -6,6 +6,7 @@
 #                at it with VERIF_REPO (own target dir) - does not disturb /repo, can run in background
 #   --in-repo  : the literal procedure: git -C /repo apply, run the checks as registered (they
 #                rebuild from /repo), git -C /repo checkout -- . straight afterwards
+# SEED_MERGE=1: keep the results of checks not named now (from an existing detection.json).
 # Evidence/replays of these runs go to a scratch dir, never to /verif/evidence.
 set -u
 HERE="$(cd "$(dirname "$0")/.." && pwd)"
@@ -27,7 +28,8 @@ else
   export VERIF_REPO="$WT" VERIF_TARGET_DIR="${SEED_TARGET:-/tmp/orxsim-seed-target}"
   HOW="patch applied to a scratch worktree of /repo HEAD, quick checks run with VERIF_REPO pointing at it"
 fi
-RES="{}"
+# results of checks that are not re-run now are kept (column re-runs after a check was strengthened)
+RES="{}"; [ -n "${SEED_MERGE:-}" ] && [ -f "$D/detection.json" ] && RES=$(jq -c '.results' "$D/detection.json")
 for P in "${PROPS[@]}"; do
   OUT=$(VERIF_OUT_DIR="$SCR" "$HERE/check" "$P" quick 2>&1); RC=$?
   FIRST=$(echo "$OUT" | grep -m1 "^violation" | cut -c1-300)
